@@ -23,7 +23,7 @@ macro "bridge_frame" : tactic => `(tactic| (
       try unfold Data
       repeat' (first | constructor | split)
       all_goals (try simp only [])
-      all_goals bv_decide))
+      all_goals bv_decide (config := { timeout := 120 })))
 
 theorem bridge_sc_flags (f : Gen.Go.frame) :
     frame_isExtended_ret f = (scOf f).isExtended ∧ frame_isRemote_ret f = (scOf f).isRemote ∧
@@ -49,7 +49,7 @@ theorem bridge_sc_encode (f : Gen.Go.frame) (cf : Gen.Go.Frame) :
     simp only [frameOf, scOf, encodeFrame, idFlagExtended, idFlagRemote]
     repeat' split
     all_goals simp_all
-    all_goals bv_decide
+    all_goals bv_decide (config := { timeout := 120 })
   · unfold_go; simp
 
 theorem bridge_sc_decode (f : Gen.Go.frame) :
@@ -67,7 +67,7 @@ theorem bridge_sc_marshal (f : Gen.Go.frame) (b : BitVec 128) (n : BitVec 64) (h
   unfold_go
   simp only [scOf, marshalBinary]
   try unfold Data
-  constructor <;> bv_decide
+  constructor <;> bv_decide (config := { timeout := 120 })
 
 /-- into a zeroed buffer: exactly the model's 16-byte image -/
 theorem bridge_sc_marshal_zero (f : Gen.Go.frame) (n : BitVec 64) (hn : BitVec.ule 16#64 n = true) :
@@ -80,15 +80,15 @@ theorem bridge_sc_unmarshal (f : Gen.Go.frame) (b : BitVec 128) (n : BitVec 64) 
   unfold_go
   simp only [scOf, unmarshalBinary]
   try unfold Data
-  refine ⟨?_, by bv_decide⟩
+  refine ⟨?_, by bv_decide (config := { timeout := 120 })⟩
   simp only [ScFrame.mk.injEq]
-  refine ⟨by bv_decide, by bv_decide, by bv_decide⟩
+  refine ⟨by bv_decide (config := { timeout := 120 }), by bv_decide (config := { timeout := 120 }), by bv_decide (config := { timeout := 120 })⟩
 
 /-- a slice shorter than 16 bytes: the translated code panics at its bounds check instead of reading or writing -/
 theorem bridge_sc_short (f : Gen.Go.frame) (b : BitVec 128) (n : BitVec 64) (hn : BitVec.ult n 16#64 = true) :
     frame_marshalBinary_ok f b n = false ∧ frame_unmarshalBinary_ok f b n = false := by
   unfold_go
-  constructor <;> bv_decide
+  constructor <;> bv_decide (config := { timeout := 120 })
 
 /-- the getters, `decodeFrame` and `Validate` leave the frame they are called on unchanged (the translator found no
 assignment through their receiver) -/
